@@ -690,3 +690,136 @@ impl Modelled for WrapDefault {
 		self.0.heap(acc)
 	}
 }
+
+/// zero-sized in memory, but NOT empty on the wire: a single field-less variant still writes its index
+#[derive(Encode, Decode, DecodeWithMemTracking, MaxEncodedLen, Debug, PartialEq, Eq, PartialOrd, Ord, Clone, Copy, Default)]
+pub enum Only {
+	#[default]
+	#[codec(index = 7)]
+	V,
+}
+impl Modelled for Only {
+	fn ty() -> Ty {
+		Ty::Enum { name: "Only".into(), variants: vec![VariantTy { name: "V".into(), index: 7, skipped: false, fields: vec![] }] }
+	}
+	fn to_val(&self) -> Val {
+		Val::Variant(0, vec![])
+	}
+	fn from_val(_: &Val) -> Self {
+		Only::V
+	}
+}
+
+/// zero-sized unit struct with a hand-written codec that writes / checks one constant byte
+#[derive(Debug, PartialEq, Eq, Clone, Copy, Default)]
+pub struct Marker;
+impl Encode for Marker {
+	fn size_hint(&self) -> usize {
+		1
+	}
+	fn encode_to<W: parity_scale_codec::Output + ?Sized>(&self, dest: &mut W) {
+		dest.push_byte(0x2A);
+	}
+}
+impl parity_scale_codec::EncodeLike for Marker {}
+impl Decode for Marker {
+	fn decode<I: parity_scale_codec::Input>(input: &mut I) -> Result<Self, parity_scale_codec::Error> {
+		match input.read_byte()? {
+			0x2A => Ok(Marker),
+			_ => Err("not a marker".into()),
+		}
+	}
+	fn encoded_fixed_size() -> Option<usize> {
+		Some(1)
+	}
+}
+impl DecodeWithMemTracking for Marker {}
+impl Modelled for Marker {
+	fn ty() -> Ty {
+		// one index byte 0x2A and nothing else
+		Ty::Enum { name: "Marker".into(), variants: vec![VariantTy { name: "M".into(), index: 0x2A, skipped: false, fields: vec![] }] }
+	}
+	fn to_val(&self) -> Val {
+		Val::Variant(0, vec![])
+	}
+	fn from_val(_: &Val) -> Self {
+		Marker
+	}
+}
+
+/// user type with a fixed encoded size equal to its memory size but a NON-native wire format
+/// (big-endian): any "fixed size == memory size, so copy the bytes" shortcut gets it wrong
+#[derive(Debug, PartialEq, Eq, Clone, Copy)]
+pub struct BeU32(pub u32);
+impl Encode for BeU32 {
+	fn size_hint(&self) -> usize {
+		4
+	}
+	fn using_encoded<R, F: FnOnce(&[u8]) -> R>(&self, f: F) -> R {
+		f(&self.0.to_be_bytes())
+	}
+}
+impl parity_scale_codec::EncodeLike for BeU32 {}
+impl Decode for BeU32 {
+	fn decode<I: parity_scale_codec::Input>(input: &mut I) -> Result<Self, parity_scale_codec::Error> {
+		let mut b = [0u8; 4];
+		input.read(&mut b)?;
+		Ok(BeU32(u32::from_be_bytes(b)))
+	}
+	fn encoded_fixed_size() -> Option<usize> {
+		Some(4)
+	}
+}
+impl DecodeWithMemTracking for BeU32 {}
+impl Modelled for BeU32 {
+	fn ty() -> Ty {
+		// the model sees a struct of four bytes, most significant first
+		Ty::Struct { name: "BeU32".into(), fields: vec![FieldTy::plain(Ty::u(1)), FieldTy::plain(Ty::u(1)), FieldTy::plain(Ty::u(1)), FieldTy::plain(Ty::u(1))] }
+	}
+	fn to_val(&self) -> Val {
+		Val::Tuple(self.0.to_be_bytes().iter().map(|b| Val::Int(*b as u128)).collect())
+	}
+	fn from_val(v: &Val) -> Self {
+		let f = fields(v);
+		let mut b = [0u8; 4];
+		for i in 0..4 {
+			b[i] = u8::from_val(&f[i]);
+		}
+		BeU32(u32::from_be_bytes(b))
+	}
+}
+
+/// transparent newtypes with a zero-sized field that is NOT empty on the wire
+#[derive(Encode, Decode, DecodeWithMemTracking, MaxEncodedLen, Debug, PartialEq)]
+#[repr(transparent)]
+pub struct TOnlyFirst(pub Only, pub u32);
+impl Modelled for TOnlyFirst {
+	fn ty() -> Ty {
+		Ty::Struct { name: "TOnlyFirst".into(), fields: vec![FieldTy::plain(Only::ty()), FieldTy::plain(Ty::u(4))] }
+	}
+	fn to_val(&self) -> Val {
+		Val::Tuple(vec![self.0.to_val(), self.1.to_val()])
+	}
+	fn from_val(v: &Val) -> Self {
+		TOnlyFirst(Only::V, u32::from_val(&fields(v)[1]))
+	}
+}
+
+#[derive(Encode, Decode, DecodeWithMemTracking, Debug, PartialEq)]
+#[repr(transparent)]
+pub struct TOnlyLast {
+	pub v: [u16; 2],
+	pub m: Marker,
+	pub p: PhantomData<u8>,
+}
+impl Modelled for TOnlyLast {
+	fn ty() -> Ty {
+		Ty::Struct { name: "TOnlyLast".into(), fields: vec![FieldTy::plain(<[u16; 2]>::ty()), FieldTy::plain(Marker::ty()), FieldTy::plain(Ty::Unit)] }
+	}
+	fn to_val(&self) -> Val {
+		Val::Tuple(vec![self.v.to_val(), self.m.to_val(), Val::Unit])
+	}
+	fn from_val(v: &Val) -> Self {
+		TOnlyLast { v: <[u16; 2]>::from_val(&fields(v)[0]), m: Marker, p: PhantomData }
+	}
+}
